@@ -39,6 +39,16 @@ def _init_worker():
         return
     env.setup_process_env()
     from . import shim  # noqa: F401  (before basilisp!)
+    if os.environ.get("VERIF_NATIVE_SO") and "basilisp._lang" not in sys.modules:
+        # the native module freshly built from the repository's rust/ sources differs from the installed .so: load the fresh one
+        # *before* anything imports basilisp (harness modules repeat this check, but by then the parent has imported basilisp)
+        import importlib.machinery
+
+        ld = importlib.machinery.ExtensionFileLoader("basilisp._lang", os.environ["VERIF_NATIVE_SO"])
+        sp = importlib.util.spec_from_loader("basilisp._lang", ld)
+        md = importlib.util.module_from_spec(sp)
+        sys.modules["basilisp._lang"] = md
+        ld.exec_module(md)
     import basilisp.main as m
 
     m.init()
